@@ -21,6 +21,11 @@ def compare(name, got, want):
         glen = got.length if isinstance(got, SymList) else len(got)
         c.prove(name + ":len", _eq_int(glen, want.length), detail="length %s vs %s" % (glen, want.length))
         wl, gl = unwrap_int(want.length), unwrap_int(glen)
+        if isinstance(wl, SymInt) and isinstance(gl, int):
+            # the path may pin the symbolic length (e.g. k == 0 on this branch)
+            wl2 = unwrap_int(SymInt(c.normalize(wl.z)))
+            if isinstance(wl2, int):
+                wl = wl2
         if isinstance(wl, int) and isinstance(gl, int):
             for i in range(min(wl, gl)):
                 compare("%s:elem[%d]" % (name, i), got[i], want[i])
